@@ -379,11 +379,7 @@ pub fn number_from_string(string: &str, rule: Rule) -> Result<Number> {
                 Number::Float(as_str)
             }
         }
-        Rule::byte => Number::Byte(
-            u8::from_str_radix(&as_str[2..], 2)
-                .expect("parser allowed a non-standard byte literal")
-                .to_string(),
-        ),
+        Rule::byte => Number::Byte(u8::from_str_radix(&as_str[2..], 2)?.to_string()),
         _ => bail!("non-number rule"),
     };
 
